@@ -1,6 +1,8 @@
 package config
 
 import (
+	"net"
+	"strings"
 	gotemplate "text/template"
 
 	"github.com/nginx/nginx-gateway-fabric/internal/framework/helpers"
@@ -14,6 +16,16 @@ var (
 	mainConfigTemplate = gotemplate.Must(gotemplate.New("main").Parse(mainConfigTemplateText))
 	mgmtConfigTemplate = gotemplate.Must(gotemplate.New("mgmt").Parse(mgmtConfigTemplateText))
 )
+
+// nginxAddr puts brackets around a bare IPv6 address: the command-line flags accept it without brackets,
+// but NGINX requires them for an address argument.
+func nginxAddr(v string) string {
+	if strings.Contains(v, ":") && net.ParseIP(v) != nil {
+		return "[" + v + "]"
+	}
+
+	return v
+}
 
 type mainConfig struct {
 	Includes []shared.Include
@@ -68,8 +80,8 @@ func (g GeneratorImpl) generateMgmtFiles(conf dataplane.Configuration) []file.Fi
 	files := []file.File{tokenFile}
 
 	cfg := mgmtConf{
-		Endpoint:         g.usageReportConfig.Endpoint,
-		Resolver:         g.usageReportConfig.Resolver,
+		Endpoint:         nginxAddr(g.usageReportConfig.Endpoint),
+		Resolver:         nginxAddr(g.usageReportConfig.Resolver),
 		LicenseTokenFile: tokenFile.Path,
 		SkipVerify:       g.usageReportConfig.SkipVerify,
 	}
